@@ -27,6 +27,9 @@ def parseObs (t : String) : Option Obs :=
     | "sSerEnd" => some .sSerEnd
     | "sUnlock" => some .sUnlock
     | "xStart" => some .xStart
+    | "xStop" => some .xStop
+    | "iSetFlag" => some .iSetFlag
+    | "iClrFlag" => some .iClrFlag
     | "iSeeSrv1" => some (.iSeeSrv true)
     | "iSeeSrv0" => some (.iSeeSrv false)
     | "iSkipUnlock" => some .iSkipUnlock
@@ -72,7 +75,7 @@ def handle (toks : List String) : String :=
             -- racy / ub: in SOME candidate explanation the server was started inside an unlocked iteration /
             -- the integrator unlocked a mutex it did not own (must-be: in ALL of them)
             let anyR := cands.any (·.racy); let allR := cands.all (·.racy)
-            let anyU := cands.any (·.ub)
+            let anyU := cands.any (fun c => c.ub || c.memerr)
             let rs := if allR then "racy" else if anyR then "maybe-racy" else "clean"
             s!"{id} ACCEPT {s.sim.steps} {s.sim.adj} {s.served} {phaseStr s.sim.phase} {cands.length} {if same then "det" else "nondet"} {rs} {if anyU then "ub" else "noub"}"
       | "X" =>
